@@ -60,6 +60,9 @@ def run(ctx, verdict):
                         "SRIDs on MEMBERS of a collection (EWKB): the formats put the SRID on the outermost geometry only, so what "
                         "becomes of a member's own SRID is left open (compared with member SRIDs stripped, WKB!StripM); the "
                         "outermost SRID must round-trip and all variants must agree with Marshal",
-                        "SQL wrappers: Scan of the NDR and the XDR encoding, Value() after Scan and of a directly populated wrapper; "
+                        "SQL wrappers: Scan of the NDR and the XDR encoding, Value() after Scan and of a directly populated wrapper "
+                        "(Value() takes no byte order: the standard encoding in either order is accepted); a wrapper of the wrong type "
+                        "must report an error (any error, not a panic / success / NULL); "
                         "Scan(nil), Scan(string), Scan(int64): no panic, refused or NULL (or a well-formed geometry)",
+                        "a decoded geometry is always compared without the SRIDs of its members (WKB!StripMS): only the outermost SRID is promised",
                         "every geometry handed out by Read / hex Decode / Scan is structurally well formed (FlatGeom!WellFormedObj)"]
